@@ -573,9 +573,31 @@ fn crash_in_aimed_append(
         .find(|frame| frame.file == file && frame.off == next_block && frame.frame_type == 4)
         .map(|frame| frame.len - 7)
         .unwrap_or(1000);
-    let len = room - (11 + script.queues[q].len() + 12) + stale_tail;
-    let payload = Payload { seed: seed | 1, len, embed: None };
-    let bytes = payload_bytes(script, &payload);
+    // three shapes of the append: one record whose tail is as long as the stale one (the spliced
+    // entry decodes: C08); a batch of small records closed by such a record (same, with genuine
+    // records in front); a batch whose last record is 3 bytes longer than that (the spliced entry is
+    // malformed and must be dropped as a whole: C12)
+    let variant = seed % 3;
+    let entry_head = 11 + script.queues[q].len();
+    let mut lens: Vec<usize> = Vec::new();
+    let mut used = entry_head;
+    if variant > 0 {
+        let small = 20 + (seed % 40) as usize;
+        while lens.len() < 120 && used + 2 * (12 + small) + 12 < room {
+            lens.push(small);
+            used += 12 + small;
+        }
+    }
+    if used + 12 >= room {
+        verif::stop_recording();
+        return out;
+    }
+    lens.push(room - used - 12 + stale_tail + if variant == 2 { 3 } else { 0 });
+    let payloads: Vec<Payload> = lens
+        .iter()
+        .enumerate()
+        .map(|(idx, len)| Payload { seed: (seed | 1).wrapping_add(idx as u64 * 2), len: *len, embed: None })
+        .collect();
     let position = match log.last_position(&script.queues[q]) {
         Ok(Some(last)) => last + 1,
         _ => snapshot
@@ -585,12 +607,20 @@ fn crash_in_aimed_append(
             .map(|queue| queue.start_position)
             .unwrap_or(0),
     };
-    if script.enc(position) < 0 {
+    if script.enc(position) < 0 || script.enc(position + payloads.len() as u64) < 0 {
         verif::stop_recording();
         return out;
     }
-    let inflight = json!([q, script.enc(position), digest(&bytes), bytes.len()]);
-    let step = Step::Append { q, pos: None, batch: vec![payload] };
+    let recs: Vec<Value> = payloads
+        .iter()
+        .enumerate()
+        .map(|(idx, payload)| {
+            let bytes = payload_bytes(script, payload);
+            json!([script.enc(position + idx as u64), digest(&bytes), bytes.len()])
+        })
+        .collect();
+    let inflight = json!({"q": q, "recs": recs, "variant": variant});
+    let step = Step::Append { q, pos: None, batch: payloads };
     let _ = apply_step(script, &mut log, &step);
     let events = verif::take_events();
     verif::stop_recording();
